@@ -24,8 +24,8 @@ using sim::Rng;
 
 namespace {
 
-enum OpKind : uint16_t { kValidStep, kCall, kBadBind, kBadAlign, kBadEmbedLabel, kBadEmbedDelta, kBadSection, kBadNamedLabel, kBadEmbedArray, kA64Form, kX86ShortJump, kX86Locked, kX86ZMask, kTooManyOperands, kDetachedEmit, kX86AbsAddr, kX86BadRegId, kOpCount };
-const char* const kOpNames[kOpCount] = {"valid_step", "call", "bad_bind", "bad_align", "bad_embed_label", "bad_embed_label_delta", "bad_section", "bad_named_label", "bad_embed_array", "a64_form", "x86_short_jump", "x86_locked", "x86_zmask", "too_many_operands", "detached_emit", "x86_abs_addr", "x86_bad_reg_id"};
+enum OpKind : uint16_t { kValidStep, kCall, kBadBind, kBadAlign, kBadEmbedLabel, kBadEmbedDelta, kBadSection, kBadNamedLabel, kBadEmbedArray, kA64Form, kX86ShortJump, kX86Locked, kX86ZMask, kTooManyOperands, kDetachedEmit, kX86AbsAddr, kX86BadRegId, kX86FarJcc, kOpCount };
+const char* const kOpNames[kOpCount] = {"valid_step", "call", "bad_bind", "bad_align", "bad_embed_label", "bad_embed_label_delta", "bad_section", "bad_named_label", "bad_embed_array", "a64_form", "x86_short_jump", "x86_locked", "x86_zmask", "too_many_operands", "detached_emit", "x86_abs_addr", "x86_bad_reg_id", "x86_far_jcc"};
 const char* op_name(uint16_t k) { return k < kOpCount ? kOpNames[k] : "?"; }
 
 enum HandlerMode { kHandlerNone = 0, kHandlerRecording, kHandlerThrowing, kHandlerModeCount };
@@ -229,6 +229,15 @@ bool a64_known_invalid(uint32_t inst_id, const Operand_* o, const Operand_* form
       if (multi && n >= 2 && o[0].is_reg() && o[0].as<Reg>().reg_type() == RegType::kVec64 && !o[0].as<a64::Vec>().has_element_index() && o[0].as<a64::Vec>().element_type() == a64::VecElementType::kD) { *why = "the .1d arrangement is reserved for ld2/ld3/ld4/st2/st3/st4"; return true; }
       break;
     }
+    case I::kIdFcmla_v:
+      // by element: the index selects a complex PAIR - 4h: 0..1, 8h: 0..3, 4s: 0..1
+      if (n == 4 && o[0].is_reg() && o[2].is_reg() && o[2].as<Reg>().is_vec() && o[2].as<a64::Vec>().has_element_index()) {
+        const a64::Vec& vd = o[0].as<a64::Vec>(); uint32_t idx = o[2].as<a64::Vec>().element_index();
+        bool h = vd.element_type() == a64::VecElementType::kH, sgl = vd.element_type() == a64::VecElementType::kS;
+        uint32_t max = h ? (vd.reg_type() == RegType::kVec64 ? 1u : 3u) : sgl ? 1u : 0u;
+        if ((h || sgl) && idx > max) { *why = "fcmla (by element): index beyond the complex pairs of the arrangement"; return true; }
+      }
+      break;
     case I::kIdCsel: case I::kIdCsinc: case I::kIdCsinv: case I::kIdCsneg:
       if (n == 4 && is_imm(3) && (imm(3) < 0 || imm(3) > 15)) { *why = "condition code beyond 4 bits"; return true; }
       break;
@@ -331,8 +340,10 @@ struct Subject {
   std::vector<uint32_t> last_invalid_label_ids;   // ids that were invalid when the last call referenced them
   bool last_must_fail_other = false;              // the last call had an invalid non-label argument
 
-  Subject(gen::Target t, int kind, int handler_mode) : target(t), emitter_kind(kind) {
-    SIM_CHECK(code.init(Environment(gen::arch_of(t))) == Error::kOk, "c14:setup", "init failed");
+  uint64_t base = Globals::kNoBaseAddress;        // the base address given to CodeHolder::init(), if any
+
+  Subject(gen::Target t, int kind, int handler_mode, uint64_t known_base = Globals::kNoBaseAddress) : target(t), emitter_kind(kind), base(known_base) {
+    SIM_CHECK(code.init(Environment(gen::arch_of(t)), known_base) == Error::kOk, "c14:setup", "init failed");
     (void)foreign.init(Environment(gen::arch_of(t)));
     if (t == gen::Target::kA64) e.reset(kind == 0 ? static_cast<BaseEmitter*>(new a64::Assembler()) : kind == 1 ? static_cast<BaseEmitter*>(new a64::Builder()) : static_cast<BaseEmitter*>(new a64::Compiler()));
     else e.reset(kind == 0 ? static_cast<BaseEmitter*>(new x86::Assembler()) : kind == 1 ? static_cast<BaseEmitter*>(new x86::Builder()) : static_cast<BaseEmitter*>(new x86::Compiler()));
@@ -578,6 +589,21 @@ CallResult perform(Subject& s, const gen::Program& prog, const Op& op, bool* mus
         if (bad) { *must_fail_out = true; s.last_must_fail_other = true; sim::count("c14.probe.x86_register_id_outside_the_file"); }
         break;
       }
+      case kX86FarJcc: {
+        // A conditional jump only has rel8 / rel32 forms and cannot be routed through the address table: with the base
+        // address known, an absolute target out of the rel32 range cannot be encoded and must be refused at once (without a
+        // known base the decision is relocate_to_base()'s - C04).
+        if (s.target == gen::Target::kA64) break;
+        static const uint32_t jcc[] = {x86::Inst::kIdJz, x86::Inst::kIdJnz, x86::Inst::kIdJl, x86::Inst::kIdJae, x86::Inst::kIdJs};
+        bool far = (op.a[1] & 1) != 0;
+        uint64_t here = (s.base == Globals::kNoBaseAddress ? 0x10000ull : s.base);
+        uint64_t t = far ? here + ((op.a[1] & 2) ? 0x180000000ull : uint64_t(-0x180000000ll)) + uint64_t(op.a[2] & 0xfff) : here + uint64_t(op.a[2] & 0xffff);
+        if (s.target == gen::Target::kX86) t &= 0xffffffffull;
+        /* (in a section whose offset is not known yet the distance cannot be computed: the reference is left to relocation) */
+        if (far && s.target == gen::Target::kX64 && s.base != Globals::kNoBaseAddress && s.emitter_kind == 0 && static_cast<BaseAssembler&>(e).current_section()->section_id() == 0) { *must_fail_out = true; s.last_must_fail_other = true; sim::count("c14.probe.far_jcc_with_known_base"); }
+        r.err = e.emit(jcc[size_t(uint64_t(op.a[0]) % 5)], Imm(t));
+        break;
+      }
       case kTooManyOperands: {
         // emit_op_array() with more operands than an instruction can have, while one-shot state is pending
         Operand ops[8];
@@ -661,7 +687,8 @@ void execute(const Plan& plan) {
   std::string final_snapshot;
   uint64_t failed_calls = 0;
   {
-    Subject s(target, kind, hm);
+    uint64_t known_base = plan.get("known_base", 0) ? (target == gen::Target::kX86 ? 0x40000000ull : 0x0000200000000000ull) : Globals::kNoBaseAddress;
+    Subject s(target, kind, hm, known_base);
     for (size_t i = 0; i < plan.ops.size(); i++) {
       const Op& op = plan.ops[i];
       sim::begin_op(op, i);
@@ -687,7 +714,7 @@ void execute(const Plan& plan) {
         if (hm != kHandlerNone && op.kind != kBadNamedLabel && op.kind != kBadSection) {
           if (r.handler_calls == 0) sim::count("c14.probe.error_without_handler_call"); else if (r.handler_calls > 1) sim::count("c14.probe.handler_called_more_than_once");
           // The statement requires the error to be reported through the return value AND the attached handler.
-          if (op.kind == kCall || op.kind == kA64Form || op.kind == kX86ShortJump || op.kind == kX86Locked || op.kind == kX86ZMask || op.kind == kTooManyOperands || op.kind == kX86AbsAddr || op.kind == kX86BadRegId || op.kind == kValidStep) SIM_CHECK(r.handler_calls >= 1, "c14:error-not-reported-to-handler", "%s returned error %u but the attached error handler was never invoked", op_name(op.kind), unsigned(r.err));
+          if (op.kind == kCall || op.kind == kA64Form || op.kind == kX86ShortJump || op.kind == kX86Locked || op.kind == kX86ZMask || op.kind == kTooManyOperands || op.kind == kX86AbsAddr || op.kind == kX86BadRegId || op.kind == kX86FarJcc || op.kind == kValidStep) SIM_CHECK(r.handler_calls >= 1, "c14:error-not-reported-to-handler", "%s returned error %u but the attached error handler was never invoked", op_name(op.kind), unsigned(r.err));
         }
       }
       else {
@@ -718,7 +745,7 @@ void execute(const Plan& plan) {
   sim::begin_op(Op(), plan.ops.size() + 1);
   std::string fresh_snapshot;
   {
-    Subject f(target, kind, kHandlerRecording);
+    Subject f(target, kind, kHandlerRecording, plan.get("known_base", 0) ? (target == gen::Target::kX86 ? 0x40000000ull : 0x0000200000000000ull) : Globals::kNoBaseAddress);
     for (size_t k = 0; k < succeeded.size(); k++) {
       size_t i = succeeded[k];
       bool must_fail = false;
@@ -801,6 +828,7 @@ Plan generate(uint64_t seed, bool thorough) {
   p.set("target", target);
   p.set("emitter", cfg.chance(2, 3) ? 0 : int64_t(1 + cfg.below(2)));
   p.set("handler", int64_t(cfg.below(kHandlerModeCount)));
+  p.set("known_base", int64_t(cfg.chance(1, 3) ? 1 : 0));
   p.set("prog_seed", int64_t(cfg.next() & 0x7fffffffffffll));
   size_t steps = size_t(5 + cfg.below(thorough ? 60 : 30));
   p.set("prog_steps", int64_t(steps));
@@ -836,9 +864,9 @@ Plan generate(uint64_t seed, bool thorough) {
         op.a[3] = int64_t(r.below(2));
       }
       else {
-        static const uint16_t ks[] = {kBadBind, kBadAlign, kBadEmbedLabel, kBadEmbedDelta, kBadSection, kBadNamedLabel, kBadEmbedArray, kX86ShortJump, kX86Locked, kX86ZMask, kTooManyOperands, kDetachedEmit, kX86AbsAddr, kX86BadRegId};
+        static const uint16_t ks[] = {kBadBind, kBadAlign, kBadEmbedLabel, kBadEmbedDelta, kBadSection, kBadNamedLabel, kBadEmbedArray, kX86ShortJump, kX86Locked, kX86ZMask, kTooManyOperands, kDetachedEmit, kX86AbsAddr, kX86BadRegId, kX86FarJcc};
         op.kind = r.pick(ks);
-        if ((op.kind == kX86ShortJump || op.kind == kX86Locked || op.kind == kX86ZMask || op.kind == kX86AbsAddr || op.kind == kX86BadRegId) && target == 2) op.kind = kBadAlign;
+        if ((op.kind == kX86ShortJump || op.kind == kX86Locked || op.kind == kX86ZMask || op.kind == kX86AbsAddr || op.kind == kX86BadRegId || op.kind == kX86FarJcc) && target == 2) op.kind = kBadAlign;
         op.a[0] = r.chance(1, 2) ? int64_t(r.below(8)) : -int64_t(1 + r.below(8)); op.a[1] = r.chance(1, 2) ? int64_t(r.below(8)) : -int64_t(1 + r.below(8)); op.a[2] = int64_t(r.below(100));
         if (op.kind == kBadAlign || op.kind == kBadEmbedArray || op.kind == kBadNamedLabel || op.kind == kX86BadRegId) op.a[0] = int64_t(r.below(1000));
         if (op.kind == kBadEmbedLabel) op.a[1] = int64_t(r.below(1000));
@@ -852,7 +880,7 @@ Plan generate(uint64_t seed, bool thorough) {
 }
 
 void shrink(const Plan& p, std::vector<Plan>& out) {
-  static const char* const zero_keys[] = {"junk", "realloc_move", "code_buffer", "handler", "emitter"};
+  static const char* const zero_keys[] = {"junk", "realloc_move", "code_buffer", "handler", "emitter", "known_base"};
   for (const char* k : zero_keys) if (p.get(k)) { Plan q = p; q.set(k, 0); out.push_back(q); }
   // drop operands of calls one by one (not on AArch64, where the operand kinds of a form must be kept)
   for (size_t i = 0; i < p.ops.size(); i++) {
